@@ -122,10 +122,34 @@ int __wrap_usleep(useconds_t us)
 	if (!warp_thread && srv_virtual_sleep) { srv_stall_us += us; return 0; }
 	return __real_usleep(us);
 }
+/* The survivor server of cdeath runs in the tracer's thread.  The library blocks in poll() inside a handler in one
+ * place (qb_ipcs_dispatch_connection_request waits with an INFINITE timeout for the wake-up bytes of the requests it
+ * has just taken from the ring); the client it waits for may sit in a ptrace stop that only this thread can resume.
+ * So a blocking poll of the server keeps the tracer going (and a kill point reached meanwhile is executed: the client
+ * dies while the server is inside the handler). */
+static struct ka *cur_ka = NULL;
+static int killed_in_handler = 0;
+static int server_blocked_polls = 0;
+static void pump_tracer(void)
+{
+	int r;
+	if (!cur_ka || cur_ka->dead) return;
+	r = ka_step(cur_ka, 0);
+	if (r == 2) { killed_in_handler = 1; ka_kill(cur_ka); }
+}
 int __wrap_poll(struct pollfd *fds, nfds_t n, int timeout)
 {
 	int remaining = timeout, r;
-	if (!warp_thread) return __real_poll(fds, n, timeout);
+	if (!warp_thread) {
+		if (!cur_ka || timeout == 0) return __real_poll(fds, n, timeout);
+		server_blocked_polls++;
+		for (;;) {
+			r = __real_poll(fds, n, 1);
+			if (r != 0) return r;
+			pump_tracer();
+			if (remaining > 0 && --remaining == 0) return 0;
+		}
+	}
 	for (;;) {
 		int slice = (remaining < 0 || remaining > 2) ? 2 : remaining;
 		int dead = warp_dead;
@@ -637,6 +661,7 @@ static void case_cdeath(const char *tr, int sc, int k, int policy)
 	ka_init(&t, pid, k);
 	if (ka_attach(&t) != 0) { printf("r attach-failed\n"); ka_kill(&t); return; }
 	t0 = real_ns(CLOCK_MONOTONIC);
+	cur_ka = &t; killed_in_handler = 0; server_blocked_polls = 0;
 	for (;;) {
 		r = ka_step(&t, 0);
 		if (r == 1) { if (eager && !t.in_syscall) srv_pass(); continue; }
@@ -647,7 +672,7 @@ static void case_cdeath(const char *tr, int sc, int k, int policy)
 			if (stale) srv_dispatch();
 			break;
 		}
-		if (r == 3) { printf("cut exited\n"); break; }
+		if (r == 3) { printf(killed_in_handler ? "cut inhandler\n" : "cut exited\n"); break; }
 		/* nothing pending: is the child blocked in the kernel? */
 		{
 			int st = ka_proc_state(pid);
@@ -656,7 +681,8 @@ static void case_cdeath(const char *tr, int sc, int k, int policy)
 		}
 		if (real_ns(CLOCK_MONOTONIC) - t0 > 20000000000LL) { printf("STUCK client does not progress\n"); ka_kill(&t); break; }
 	}
-	printf("child %s count=%d\n", t.killed ? "killed" : "exited", t.count);
+	cur_ka = NULL;
+	printf("child %s count=%d server_blocked_polls=%d\n", t.killed ? "killed" : "exited", t.count, server_blocked_polls);
 	print_trace(&t);
 	srv_quiesce();
 	report_after_death(fd0, ent0, ref0, by);
